@@ -74,6 +74,17 @@ FnSigs(e) ==
                        \cup (IF e.av1.obu # Av1SeqObuBytes(d) THEN {FSig("C07", "Av1Extract", "extract_av1_config", "obu-bytes")} ELSE {}))
             ELSE {}          \* truncated / malformed trailing bits / reserved profile: not judged
           ELSE {})
+    \cup (IF "obu" \in DOMAIN e /\ d # << >> THEN
+            LET o == ObuHeaderAt(d, 1) IN
+            IF e.obu.some # o.ok THEN {FSig("C07", "ObuFraming", "parse_obu_header", IF e.obu.some THEN "accepts-malformed" ELSE "rejects-well-formed")}
+            ELSE IF o.ok /\ (e.obu.type # o.type \/ e.obu.ext # o.ext \/ e.obu.hdr # o.hdr \/ (o.payload < BIG /\ e.obu.payload # o.payload))
+                 THEN {FSig("C07", "ObuFraming", "parse_obu_header", "fields")} ELSE {}
+          ELSE {})
+    \cup (IF "obucount" \in DOMAIN e THEN
+            LET RECURSIVE cnt(_)
+                cnt(p) == IF p > Len(d) THEN 0 ELSE LET o == ObuAt(d, p) IN IF ~o.ok THEN 0 ELSE IF o.total = 0 THEN 1 ELSE 1 + cnt(p + o.total)
+            IN IF e.obucount # cnt(1) THEN {FSig("C07", "ObuFraming", "ObuIter", "count")} ELSE {}
+          ELSE {})
     \cup (IF "vp9" \in DOMAIN e THEN
             IF e.vp9.some # Vp9HasConfig(d) THEN {FSig("C07", "Vp9Extract", "extract_vp9_config", IF e.vp9.some THEN "spurious" ELSE "missed")}
             ELSE IF e.vp9.some THEN
